@@ -28,8 +28,10 @@ def gen_para_text(rng, nwords=None, tags=True, atoms=True, newlines=True, hard=T
                 s += "  "
             elif r < 0.83 and hard:
                 s += "\\\n"
-            elif r < 0.86 and hard:
+            elif r < 0.85 and hard:
                 s += "  \n"
+            elif r < 0.86 and hard:
+                s += rng.choice(["\\\n\\\n", "  \n\\\n", "\\\n  \\\n\\\n"])      # consecutive hard breaks: empty segments
             elif r < 0.88 and tags:
                 s += ""          # adjacency
             elif r < 0.9:
